@@ -379,6 +379,8 @@ class Resolver:
         rets = [n for n in own_statements(callee.node) if isinstance(n, ast.Return)]
         if not rets or len(own_statements(callee.node)) > 40:
             return None
+        if any(isinstance(x, (ast.For, ast.While, ast.Yield, ast.YieldFrom)) for x in ast.walk(callee.node)):
+            return None  # builds its result by iteration/mutation: the return expression alone does not describe it
         cres = Resolver(self.m, callee, flow=True)
         binding = {("param", callee.params.index(p), p): a for p, a in zip(params, args)}
         alts = []
